@@ -274,14 +274,20 @@ func (c *Control) QueryLighthouse(vpnIp netip.Addr) *CacheMap {
 // GetHostInfoByVpnAddr returns a single tunnels hostInfo, or nil if not found
 // Caller should take care to Unmap() any 4in6 addresses prior to calling.
 func (c *Control) GetHostInfoByVpnAddr(vpnAddr netip.Addr, pending bool) *ControlHostInfo {
-	var hl controlHostLister
 	if pending {
-		hl = c.f.handshakeManager
-	} else {
-		hl = c.f.hostMap
+		hh := c.f.handshakeManager.queryVpnIp(vpnAddr)
+		if hh == nil {
+			return nil
+		}
+
+		// The handshake in progress still writes to a pending hostinfo
+		hh.Lock()
+		defer hh.Unlock()
+		ch := copyHostInfo(hh.hostinfo, c.f.hostMap.GetPreferredRanges())
+		return &ch
 	}
 
-	h := hl.QueryVpnAddr(vpnAddr)
+	h := c.f.hostMap.QueryVpnAddr(vpnAddr)
 	if h == nil {
 		return nil
 	}
